@@ -1,12 +1,14 @@
 """C07 - the Merkle proof verifiers are sound.
 spec/Merkle.tla, table "c07"; driver vd-merkle c07.
   1. TLC, exhaustive over (verifier, n, m) x the mutation menu: the transcribed verifiers accept every honest proof,
-     the repaired variant is sound (accepted => claim true, with the claim's meaning given by the monitors SubAt /
-     PrefixRoot / LeafOf), and the verifiers AS CODED are sound except for exactly one named deviation: the
-     consistency shortcut `old_root == new_root` taken before the sizes are compared.
+     the repaired variant is sound and complete (accepted <=> the claim is true AND the proof is the audit path /
+     consistency proof that belongs to it, both read off the root term by the monitors SubAt / PrefixRoot / Siblings /
+     RefSub / Desc), and the verifiers AS CODED are sound except for exactly one named deviation: the consistency
+     shortcut `old_root == new_root` taken before the sizes are compared.
   2. P-TABLE: every (claim, mutated proof) row is concretized with the real SHA-256 over random distinct leaves and
      given to the real VerifyLeafHashInclusion / VerifyLeafInclusion / VerifyConsistency / MerkleProve.
-     Monitor: real verifier accepts => row.truth.  Differences from the transcribed verdict that keep soundness = drift.
+     Monitor: real verifier accepts => row.truth (claim true and proof = the proof of that claim).  Differences from the
+     transcribed verdict that keep this = drift.
 """
 from checks.merkle_common import table, cfg_text, summary, load_replay
 
@@ -20,6 +22,8 @@ def run(ctx):
     runs = [("Merkle_c07_quick.cfg", None), ("Merkle_c07_quick_double.cfg", None)] if q else [
         ("Merkle_c07_thorough_single.cfg", None), ("Merkle_c07_thorough_near.cfg", None),
         ("Merkle_c07_thorough_double.cfg", None), ("Merkle_c07_thorough_double_full.cfg", None)]
+    if rep:
+        runs = [(rep["cfg"], None)]
     total = distinct = 0
     for cfg, files in runs:
         rows, pools = table(ctx, cfg, files=files, timeout=2400)
@@ -66,4 +70,8 @@ def run(ctx):
                       assumptions=["SHA-256 collision resistance (free term algebra); the concretization is checked to be injective on the pool",
                                    "consistency claims with old size 0 are vacuous in RFC 6962 (accepted as is) and are not generated",
                                    "a claim is TRUE when the root term, opened along the path that (index, size) determine, shows the claimed "
-                                   "leaf / the claimed old root; sizes that leave this path shape unchanged are therefore not alterations"])
+                                   "leaf / the claimed old root, and the proof must be exactly the hashes next to that path; sizes that leave "
+                                   "this path shape unchanged are therefore not alterations (no RFC 6962 verifier can see them)",
+                                   "not counted as alterations: a position flag other than 0/1 (read as RIGHT), surplus bytes shorter than one "
+                                   "path element, and the proof argument of a consistency claim between EQUAL sizes (RFC 6962 defines no proof "
+                                   "content there; the claim is decided by root equality)"])
